@@ -698,6 +698,7 @@ def run(chk, tier):
     chk.guard('C05.d2', lambda: c05.rule_literal_base(chk, prog, tier))       # ... and primaryexpr has to hand inttype the right base
     chk.guard('C10.h', lambda: c10.rule_staticassert(chk, prog, tier))        # static assertions are one of the folding contexts
     chk.guard('C05.b', lambda: c05.rule_common(chk, prog, tier))               # the common real type of the operands decides whether a fold is signed or unsigned
+    chk.guard('C05.c', lambda: c05.rule_binary_types(chk, prog, tier))          # ... and the type each operator gives its operands and result (shifts: the promoted left operand)
     from props import c15
     chk.guard('C15.f', lambda: c15.rule_case_conversion(chk, prog, tier))     # case labels are another: the folded constant is converted to the promoted controlling type
     from props import c07
